@@ -1,4 +1,7 @@
-use std::hash::{Hash, Hasher};
+use std::{
+    collections::hash_map::Entry,
+    hash::{Hash, Hasher},
+};
 
 use rustc_hash::{FxHashMap, FxHasher};
 use text_size::TextSize;
@@ -23,9 +26,11 @@ const CHILDREN_CACHE_THRESHOLD: usize = 3;
 /// You can re-use the same cache for multiple similar trees with [`GreenNodeBuilder::with_cache`].
 #[derive(Debug)]
 pub struct NodeCache<'i, I = TokenInterner> {
-    nodes:    FxHashMap<GreenNodeHead, GreenNode>,
-    tokens:   FxHashMap<GreenTokenData, GreenToken>,
-    interner: MaybeOwned<'i, I>,
+    nodes:     FxHashMap<GreenNodeHead, GreenNode>,
+    /// Nodes whose head (kind, text length and child hash) collides with that of a *different* node in `nodes`.
+    colliding: Vec<GreenNode>,
+    tokens:    FxHashMap<GreenTokenData, GreenToken>,
+    interner:  MaybeOwned<'i, I>,
 }
 
 impl NodeCache<'static> {
@@ -54,9 +59,10 @@ impl NodeCache<'static> {
     /// ```
     pub fn new() -> Self {
         Self {
-            nodes:    FxHashMap::default(),
-            tokens:   FxHashMap::default(),
-            interner: MaybeOwned::Owned(new_interner()),
+            nodes:     FxHashMap::default(),
+            colliding: Vec::new(),
+            tokens:    FxHashMap::default(),
+            interner:  MaybeOwned::Owned(new_interner()),
         }
     }
 }
@@ -101,9 +107,10 @@ where
     #[inline]
     pub fn with_interner(interner: &'i mut I) -> Self {
         Self {
-            nodes:    FxHashMap::default(),
-            tokens:   FxHashMap::default(),
-            interner: MaybeOwned::Borrowed(interner),
+            nodes:     FxHashMap::default(),
+            colliding: Vec::new(),
+            tokens:    FxHashMap::default(),
+            interner:  MaybeOwned::Borrowed(interner),
         }
     }
 
@@ -138,9 +145,10 @@ where
     #[inline]
     pub fn from_interner(interner: I) -> Self {
         Self {
-            nodes:    FxHashMap::default(),
-            tokens:   FxHashMap::default(),
-            interner: MaybeOwned::Owned(interner),
+            nodes:     FxHashMap::default(),
+            colliding: Vec::new(),
+            tokens:    FxHashMap::default(),
+            interner:  MaybeOwned::Owned(interner),
         }
     }
 
@@ -225,10 +233,35 @@ where
             text_len,
             child_hash,
         };
-        self.nodes
-            .entry(head)
-            .or_insert_with_key(|head| GreenNode::from_head_and_children(head.clone(), children))
-            .clone()
+        // The head only contains a hash of the children, so a cached node with the same head is
+        // not necessarily the same node: only re-use it if its children are equal as well.
+        fn same_children(node: &GreenNode, children: &[GreenElement]) -> bool {
+            node.children().len() == children.len()
+                && node.children().zip(children).all(|(cached, new)| cached == new.as_ref())
+        }
+        match self.nodes.entry(head) {
+            Entry::Vacant(entry) => {
+                let node = GreenNode::from_head_and_children(entry.key().clone(), children);
+                entry.insert(node).clone()
+            }
+            Entry::Occupied(entry) => {
+                if same_children(entry.get(), children.as_slice()) {
+                    return entry.get().clone();
+                }
+                // A different node with the same head: keep (and deduplicate) it separately.
+                let head = entry.key();
+                if let Some(node) = self
+                    .colliding
+                    .iter()
+                    .find(|node| node.data.header.header == *head && same_children(node, children.as_slice()))
+                {
+                    return node.clone();
+                }
+                let node = GreenNode::from_head_and_children(head.clone(), children);
+                self.colliding.push(node.clone());
+                node
+            }
+        }
     }
 
     fn token<S: Syntax>(&mut self, kind: S, text: Option<TokenKey>, len: u32) -> GreenToken {
